@@ -223,6 +223,22 @@ pub fn run(ctx: &Ctx, rep: &mut Report) {
         }
     }
 
+    // ---- call shapes x body shapes (frames: anonymous / named, 0..2 parameters, captures, inline assignments)
+    {
+        let bodies = ["(t = k + 1) * t", "[u = 1, u + k]", "do {\n  w = k\n  return w * 2\n}", "{a: (v = k), b: v}.b", "if k > 0 then (z = 1) else (z = 2)", "k", "[k, inputs]", "(t = 1) + (do {\n  t2 = t\n  return t2\n})"];
+        let wrappers = ["(() => B)()", "((p) => B)(1)", "((p, q?) => B)(1)", "((...r) => B)()", "named = () => B\nnamed()", "named2 = (p) => B\nnamed2(2)", "[1] via (e => B)", "[1, 2] via (e => B)",
+            "map([1, 2], (e, i) => B)", "(() => (() => B)())()", "[() => B][0]()", "{f: () => B}.f()", "[1, 2] where (e => (B) == (B))", "reduce([1, 2], (acc, e) => B, 0)", "1 into (e => B)"];
+        for pre in ["k = 4", "k = [1]", ""] {
+            for w in wrappers.iter() {
+                for b in bodies.iter() {
+                    let src = format!("{}\n{}", pre, w.replace('B', b));
+                    rep.case(&src, true);
+                    pipeline(rep, &src);
+                }
+            }
+        }
+    }
+
     // ---- error paths with long, non-ASCII values ---------------------------------------------------
     // every construct that reports an error mentioning (part of) a value, with texts whose
     // characters are 1 to 4 bytes long at every alignment: a message that cuts or pads by
